@@ -190,19 +190,26 @@ def run(c, chk):
     chk.floor('R17.5 expanding paths', nexp, 2)
 
     # ---- R17.6 ---------------------------------------------------------------------------------
+    resolution_idiom(c, chk, ex)
+
+
+def resolution_idiom(c, chk, ex):
+    """both entry points: search path set -> cfg_searchpath(cfg->path, name), else cfg_tilde_expand(name)"""
     def idiom(f, namearg):
         out = set()
         for p in ex.explore(f):
             if p.end != 'ret':
                 continue
-            haspath = None
-            for cn, t, _ in p.assume:
-                if pm.describe_cond(cn) == 'cfg->path':
-                    haspath = t
-            calls = [e for e in p.events if e.kind == 'call' and e.name in ('cfg_searchpath', 'cfg_tilde_expand')]
-            if haspath is None or not calls:
+            calls = [e for e in p.events if e.kind == 'call' and e.name in ('cfg_searchpath', 'cfg_tilde_expand') and e.depth <= 1]
+            if not calls:
                 continue
             e = calls[0]
+            haspath = None
+            for cn, t, _ in p.assume[:e.seq]:
+                if pm.describe_cond(cn) == 'cfg->path':
+                    haspath = t
+            if haspath is None:
+                continue
             arg = e.args[1] if e.name == 'cfg_searchpath' else e.args[0]
             first = sym.render(e.args[0]) if e.name == 'cfg_searchpath' else ''
             out.add((haspath, e.name, first, arg == ('p', namearg)))
